@@ -185,8 +185,10 @@ CHECKS = {
         "timing, a UART transmitter on its own clock (rate skew up to +-2%, literal sub-cycle phase, literal old/new resolution "
         "of every edge, bad stop bits), a mode-0 SPI device; start requests at literal instants relative to the divider phase "
         "incl. back-to-back and overlapping ones; cycle-exact timer/watchdog/PWM models; return to idle demanded. Sampling.",
-   note="I2C master, SPISlave, the UART FIFO/CSR wrapper and timeline are not covered yet. Known finding C19-F1 (SPI length read "
-        "live). The +-2% UART tolerance is demanded for bit periods >= 16 cycles.",
+   note="The I2C master is driven through its Wishbone registers against an open-drain bus with a slave model and a bus decoder "
+        "(legal START/STOP/bit sequences, programmed phase lengths, data/ack both ways, overlapping commands). SPISlave and the UART "
+        "FIFO/CSR wrapper are not covered. Known finding C19-F1 (SPI length read live). The +-2% UART tolerance is demanded for bit "
+        "periods >= 16 cycles.",
    tech="deterministic simulation with pin-level peers on skewed clocks, phase/edge-resolution faults, overlapping commands, cycle-exact models"),
 }
 
